@@ -63,7 +63,7 @@ EXTENDS StaticSem, Json
 
 \* Families: the bounded universes explored by one run.  A family is
 \*   [id, leaves (alphabet), maxtok, roots]; it is chosen in Init and never changes.
-CONSTANTS MaxDepth, Families, StoreByCopy, TailKeepsSets, SplitContinues
+CONSTANTS MaxDepth, Families, StoreByCopy, TailKeepsSets, SplitContinues, SkipEmpty, SplitCachesExport, SrcFRepass
 
 VARIABLES fam,     \* the family of this behaviour
           els,     \* objects constructed so far (construction order)
@@ -72,16 +72,19 @@ VARIABLES fam,     \* the family of this behaviour
           pol,     \* how bare accumulator branches count (freedom of the statement)
           phase,   \* "build" "built" "done"
           gctx,    \* result of root._get_context()
-          rt       \* run-time contexts that left the pipeline
-vars == <<fam, els, open, st, pol, phase, gctx, rt>>
+          rt,      \* run-time contexts that left the pipeline
+          peek     \* node whose _get_context() was requested right after it was built (0: none)
+vars == <<fam, els, open, st, pol, phase, gctx, rt, peek>>
 \* tokens evaluated so far: every leaf and every bracket is an object or still open
 ntok == Len(els) + Len(open)
 
-St0 == [has |-> FALSE, ctx |-> Empty, exc |-> "", nm |-> <<>>]
+\* cset / cctx: only used by the defect model SplitCachesExport (a Split that keeps the first
+\* intersection it computed)
+St0 == [has |-> FALSE, ctx |-> Empty, exc |-> "", nm |-> <<>>, cset |-> FALSE, cctx |-> Empty]
 NoRes == [ctx |-> Empty, exc |-> ""]
 
-HasSet(k) == k \in {"set", "store", "ucfs", "mf", "mfd", "mfe", "write", "cache", "seq", "src", "split"}
-HasGet(k) == k \in {"set", "seq", "src", "split"}
+HasSet(k) == k \in {"set", "store", "ucfs", "mf", "mfd", "mfe", "write", "cache", "seq", "src", "srcf", "split"}
+HasGet(k) == k \in {"set", "seq", "src", "srcf", "split"}
 HasNoData(k) == k \in {"set", "store"}
 
 (***************************************************************************)
@@ -117,6 +120,15 @@ SplitExport(E, p, e, s) ==
 Get1(E, p, e, s) == IF E[e].k = "split" THEN SplitExport(E, p, e, s)
                     ELSE LET g == GetCtx(E, p, e, s) IN [ctx |-> g.ctx, exc |-> g.exc]
 
+\* el._get_context() as a step: in the defect model SplitCachesExport a Split answers with the
+\* first intersection it ever computed
+GetAndCache(E, p, e, s) ==
+  LET g0 == Get1(E, p, e, s)
+      isSplit == SplitCachesExport /\ E[e].k = "split"
+  IN IF isSplit /\ s[e].cset THEN [g |-> [ctx |-> s[e].cctx, exc |-> ""], s |-> s]
+     ELSE IF isSplit /\ g0.exc = "" THEN [g |-> g0, s |-> [s EXCEPT ![e].cset = TRUE, ![e].cctx = g0.ctx]]
+     ELSE [g |-> g0, s |-> s]
+
 \* el._set_context(c); al = storing elements aliasing the object c.
 \* Result [s, al, exc]: exc # "" means LenaKeyError(exc) propagates to the caller.
 SetCtx(E, p, e, c, al, s) ==
@@ -137,7 +149,7 @@ SetCtx(E, p, e, c, al, s) ==
          LET r == Fmt(E[e].v.toks, c) IN
          [s |-> IF r.ok /\ (\E j \in 1..Len(E[e].v.toks) : E[e].v.toks[j].f) THEN [s EXCEPT ![e] = [@ EXCEPT !.has = TRUE, !.nm = r.s]] ELSE s,
           al |-> al, exc |-> ""]
-    [] E[e].k \in {"seq", "src"} ->
+    [] E[e].k \in {"seq", "src", "srcf"} ->
          LET r == SeqLoop(E, p, E[e].ch, c, al, s) IN
          IF r.exc = ""
          THEN [s |-> [r.s EXCEPT ![e] = [@ EXCEPT !.has = TRUE, !.ctx = r.ctx]], al |-> r.al, exc |-> ""]
@@ -166,14 +178,15 @@ SplitSet(E, p, bs, c, al, s) ==
 SeqLoop(E, p, ch, c, al, s) ==
   IF ch = <<>> THEN [s |-> s, al |-> al, exc |-> "", raise |-> FALSE, ctx |-> c]
   ELSE LET e == Head(ch)
-           r1 == IF HasSet(E[e].k) /\ c # Empty THEN SetCtx(E, p, e, c, al, s)
+           \* "if hasattr(el, '_set_context') and context" (SkipEmpty = FALSE: without "and context")
+           r1 == IF HasSet(E[e].k) /\ (c # Empty \/ ~SkipEmpty) THEN SetCtx(E, p, e, c, al, s)
                  ELSE [s |-> s, al |-> al, exc |-> ""]
        IN
     IF r1.exc # "" THEN [s |-> r1.s, al |-> r1.al, exc |-> r1.exc, raise |-> FALSE, ctx |-> c]
     ELSE IF HasGet(E[e].k)
-    THEN LET g == Get1(E, p, e, r1.s) IN
-         IF g.exc # "" THEN [s |-> r1.s, al |-> r1.al, exc |-> g.exc, raise |-> TRUE, ctx |-> c]
-         ELSE SeqLoop(E, p, Tail(ch), g.ctx, {}, r1.s)
+    THEN LET q == GetAndCache(E, p, e, r1.s) g == q.g IN
+         IF g.exc # "" THEN [s |-> q.s, al |-> r1.al, exc |-> g.exc, raise |-> TRUE, ctx |-> c]
+         ELSE SeqLoop(E, p, Tail(ch), g.ctx, {}, q.s)
     ELSE SeqLoop(E, p, Tail(ch), c, r1.al, r1.s)
 
 \* LenaSequence.__init__ of object n: try: self._set_context({}) except LenaKeyError: pass
@@ -188,9 +201,22 @@ SourceInit(E, p, n, s) ==
       tail == IF TailKeepsSets THEN E[n].ch ELSE SelectSeq(E[n].ch, IsData)
   IN IF E[n].ch = <<>> THEN s1 ELSE SeqLoop(E, p, tail, Empty, {}, s1).s
 
+\* Source(.., generator, rest..): the tail leaves out the first data element (the generator)
+SourceInitF(E, p, n, s) ==
+  LET s1 == InitPass(E, p, n, s)
+      ch == E[n].ch
+      gp == GenPos(E, ch, 1)
+      IsTail(e) == e # ch[gp] /\ (TailKeepsSets \/ ~HasNoData(E[e].k))
+      tail == SelectSeq(ch, IsTail)
+      s2 == SeqLoop(E, p, tail, Empty, {}, s1).s
+  \* the tail lacks the generator, which may export static context: SrcFRepass = the Source sets
+  \* its static context once more after building the tail (FALSE: it does not, source.py:64)
+  IN IF SrcFRepass THEN InitPass(E, p, n, s2) ELSE s2
+
 Construct(E, p, n, s) ==
   CASE E[n].k = "seq" -> InitPass(E, p, n, s)
     [] E[n].k = "src" -> SourceInit(E, p, n, s)
+    [] E[n].k = "srcf" -> SourceInitF(E, p, n, s)
     [] OTHER -> s          \* LenaSplit.__init__: empty context, returns at once
 
 (***************************************************************************)
@@ -198,18 +224,23 @@ Construct(E, p, n, s) ==
 (***************************************************************************)
 Init == /\ fam \in Families
         /\ els = <<>> /\ open = <<>> /\ st = <<>> /\ pol = "code" /\ phase = "build"
-        /\ gctx = NoRes /\ rt = <<>>
+        /\ gctx = NoRes /\ rt = <<>> /\ peek = 0
 
 Top == open[Len(open)]
 AddChild(stack, id) == [stack EXCEPT ![Len(stack)].ch = Append(@, id)]
 
+\* a srcf bracket still waits for its generator (only SetContext / StoreContext so far)
+NoGenYet(fr) == fr.k = "srcf" /\ \A j \in 1..Len(fr.ch) : els[fr.ch[j]].k \in {"set", "store"}
 Open(kind) ==
   /\ phase = "build" /\ ntok < fam.maxtok /\ Len(open) < fam.depth
+  /\ kind = "srcf" => fam.srcf
   /\ IF open = <<>> THEN els = <<>> /\ kind \in fam.roots
-     ELSE IF Top.k = "split" THEN kind \in {"seq", "src"}
+     ELSE IF Top.k = "split" THEN (IF Top.gen THEN kind \in {"src", "srcf"} ELSE kind \in {"seq", "src", "srcf"})
+     ELSE IF NoGenYet(Top) THEN kind \in {"src", "srcf", "split"}
      ELSE kind \in {"seq", "split"}
-  /\ open' = Append(open, [k |-> kind, ch |-> <<>>])
-  /\ UNCHANGED <<fam, els, st, pol, phase, gctx, rt>>
+  /\ open' = Append(open, [k |-> kind, ch |-> <<>>,
+                           gen |-> open # <<>> /\ kind = "split" /\ NoGenYet(Top)])
+  /\ UNCHANGED <<fam, els, st, pol, phase, gctx, rt, peek>>
 
 HasFields(tpl) == \E j \in 1..Len(tpl.toks) : tpl.toks[j].f
 \* SetContext.__init__ : try: self._set_context({}) except LenaKeyError: pass
@@ -226,7 +257,9 @@ LeafInit(leaf) ==
 
 Place(leaf, newpol) ==
   /\ phase = "build" /\ ntok < fam.maxtok /\ open # <<>>
-  /\ IF Top.k = "split" THEN leaf.k = "acc" ELSE leaf.k # "acc"
+  /\ IF Top.k = "split" THEN leaf.k = "acc" /\ ~Top.gen
+     ELSE IF NoGenYet(Top) THEN leaf.k \in {"set", "store"}
+     ELSE leaf.k # "acc"
   \* the freedom for bare accumulators is chosen when the first one appears
   /\ IF leaf.k = "acc" /\ \A j \in 1..Len(els) : els[j].k # "acc"
      THEN newpol \in Policies ELSE newpol = pol
@@ -234,16 +267,22 @@ Place(leaf, newpol) ==
   /\ els' = Append(els, [k |-> leaf.k, p |-> leaf.p, v |-> leaf.v, ch |-> <<>>])
   /\ st' = Append(st, LeafInit(leaf))
   /\ open' = AddChild(open, Len(els) + 1)
-  /\ UNCHANGED <<fam, phase, gctx, rt>>
+  /\ UNCHANGED <<fam, phase, gctx, rt, peek>>
 
-Close ==
+\* Close(pk): the constructor of the innermost open bracket runs; pk = TRUE: its _get_context() is
+\* requested at once (before the object is placed anywhere) - at most once per behaviour
+Close(pk) ==
   /\ phase = "build" /\ open # <<>>
   /\ Top.k = "split" => Top.ch # <<>>
+  /\ ~NoGenYet(Top)
+  /\ pk => (fam.peek /\ peek = 0)
   /\ LET n == Len(els) + 1
          E == Append(els, [k |-> Top.k, p |-> <<>>, v |-> NoTpl, ch |-> Top.ch])
          rest == SubSeq(open, 1, Len(open) - 1)
      IN /\ els' = E
-        /\ st' = Construct(E, pol, n, Append(st, St0))
+        /\ st' = (IF pk THEN GetAndCache(E, pol, n, Construct(E, pol, n, Append(st, St0))).s
+                  ELSE Construct(E, pol, n, Append(st, St0)))
+        /\ peek' = (IF pk THEN n ELSE peek)
         /\ IF rest = <<>> THEN open' = rest /\ phase' = "built"
            ELSE open' = AddChild(rest, n) /\ UNCHANGED phase
   /\ UNCHANGED <<fam, pol, gctx, rt>>
@@ -256,11 +295,12 @@ UseRoot == /\ phase = "built"
            /\ gctx' = Get1(els, pol, Root, st)
            /\ rt' = RunRoot(els, Seen)
            /\ phase' = "done"
-           /\ UNCHANGED <<fam, els, open, st, pol>>
+           /\ UNCHANGED <<fam, els, open, st, pol, peek>>
 
 PlaceAny == \E leaf \in fam.leaves, np \in Policies : Place(leaf, np)
-OpenAny == \E kind \in {"seq", "src", "split"} : Open(kind)
-Next == PlaceAny \/ OpenAny \/ Close \/ UseRoot
+OpenAny == \E kind \in {"seq", "src", "srcf", "split"} : Open(kind)
+CloseAny == \E pk \in BOOLEAN : Close(pk)
+Next == PlaceAny \/ OpenAny \/ CloseAny \/ UseRoot
 Spec == Init /\ [][Next]_vars
 Done == phase = "done"
 
@@ -296,6 +336,10 @@ Causal ==
   [][\A i \in DOMAIN st :
         st'[i] # st[i] => /\ Len(els') = Len(els) + 1 /\ IsNode(els'[Len(els')])
                           /\ i \in Below(els', Len(els'))]_vars
+
+\* requesting the context of a freshly built node changes nothing
+PeekIsPure == [][peek' # peek =>
+                   st' = Construct(els', pol, Len(els'), Append(st, St0))]_vars
 
 \* running values through the finished pipeline changes nothing an object holds
 RunKeepsStatic == [][phase = "built" => st' = st]_vars
@@ -393,14 +437,22 @@ LeavesWide == LeavesFull \cup LeavesFocus3b \cup LeavesFocus4
 (***************************************************************************)
 (* Families (one TLC run explores all families of its configuration).      *)
 (***************************************************************************)
-Fam(id, leaves, maxtok, roots) == [id |-> id, leaves |-> leaves, maxtok |-> maxtok, roots |-> roots, depth |-> 3]
+Fam(id, leaves, maxtok, roots) == [id |-> id, leaves |-> leaves, maxtok |-> maxtok, roots |-> roots, depth |-> 3,
+                                   srcf |-> FALSE, peek |-> FALSE]
 FamD(id, leaves, maxtok, roots, depth) == [Fam(id, leaves, maxtok, roots) EXCEPT !.depth = depth]
+\* context requested before placement (stale caches); Source whose generator exports context
+LeavesFocus6 == {SetC(KA, "int", "1"), Plain("store")}
+LeavesFocus7 == {SetC(KA, "int", "1"), SetC(KB, "int", "2"), Plain("ucfs")}
+FamPeek(id, leaves, maxtok, roots, depth) == [FamD(id, leaves, maxtok, roots, depth) EXCEPT !.peek = TRUE]
+FamSrcF(id, leaves, maxtok, roots) == [Fam(id, leaves, maxtok, roots) EXCEPT !.srcf = TRUE]
+SrcFRoot == {"srcf"}
 \* a branch with an unresolved key next to sibling branches (depth 4: the key sits in a nested sequence)
 LeavesFocus5 == {SetC(KA, "int", "1"), SetF(KB, <<Fld(KDE)>>)}
 FamQuick == {Fam("A4", LeavesQuick, 4, AllRoots), Fam("B5", LeavesB, 5, SeqRoots),
              Fam("F1", LeavesFocus1, 6, SeqRoot), Fam("F2", LeavesFocus2, 5, SeqRoot),
              Fam("F3", LeavesFocus3b, 4, SeqRoot), Fam("F4", LeavesFocus4, 4, SeqRoots),
-             Fam("F5", LeavesFocus5, 6, SeqRoot)}
+             Fam("F5", LeavesFocus5, 6, SeqRoot),
+             FamPeek("F6", LeavesFocus6, 5, SeqRoot, 3), FamSrcF("F7", LeavesFocus7, 5, SrcFRoot)}
 FamCov == {Fam("A3", LeavesQuick, 3, AllRoots)}
 FamT_A == {Fam("A5", LeavesQuick, 5, AllRoots)}
 FamT_B == {Fam("B6", LeavesTiny, 6, SeqRoots)}
@@ -410,8 +462,13 @@ FamT_F == {Fam("F1", LeavesFocus1, 7, SeqRoot), Fam("F2d", LeavesFocus2b, 6, All
            Fam("F2", LeavesFocus2, 5, SeqRoots), Fam("F3", LeavesFocus3b, 5, SeqRoot),
            Fam("F4", LeavesFocus4, 4, AllRoots)}
 FamT_F1 == {f \in FamT_F : f.id \in {"F1", "F2d", "F2"}}
-FamT_F2 == {f \in FamT_F : f.id \in {"F3", "F4"}} \cup {FamD("F5d", LeavesFocus5, 7, SeqRoot, 4)}
+FamT_F2 == {f \in FamT_F : f.id \in {"F3", "F4"}} \cup {FamD("F5d", LeavesFocus5, 7, SeqRoot, 4),
+            FamPeek("F6d", LeavesFocus6, 6, SeqRoots, 4),
+            FamSrcF("F7d", LeavesFocus7 \cup {Plain("store")}, 6, {"srcf", "seq"})}
 FamThorough == FamT_A \cup FamT_B \cup FamT_C \cup FamT_F \cup FamT_F2
+FamCache == {FamPeek("cache", LeavesFocus6, 6, SeqRoot, 4)}
+FamNoRepass == {FamSrcF("norepass", LeavesFocus7, 5, SrcFRoot)}
+FamNoSkip == {FamSrcF("noskip", LeavesFocus7, 5, SrcFRoot)}
 FamAbort == {FamD("abort", LeavesFocus5, 7, SeqRoot, 4)}
 FamSim == {Fam("W8", LeavesWide, 8, AllRoots)}
 FamAlias == {Fam("alias", LeavesMin, 4, SeqRoots)}
@@ -439,7 +496,7 @@ LateOf(i, w) ==
              IF pos + j <= Len(ch) THEN w[ch[pos + j]].ctx ELSE OutOf(els, pol, n, w[n]).ctx]
 Expectation ==
   LET w == Walk(els, pol, {}, Root, Empty).acc IN
-  [fam |-> fam.id, els |-> els, pol |-> pol,
+  [fam |-> fam.id, els |-> els, pol |-> pol, peek |-> peek,
    obs |-> [i \in 1..Len(els) |-> ObsOf(i, w[i]) @@ [late |-> LateOf(i, w)]],
    noerr |-> NoErr,
    rt |-> rt]
